@@ -69,7 +69,7 @@ CLAIMS = {
          "and the evaluator resolve through one traversal; usages carry per-segment spans; rename builds its edits from the definition and all recorded usages of every import of the defining file, in original-document coordinates and only where the recorded text is the symbol's name (an import's alias stays), and not at all where an occurrence also stands for a symbol defined elsewhere; every occurrence gets the new name itself (no second look-up by name) and the per-file edit lists of a symbol's copies are merged, never replaced; whether a usage is recorded does not depend on fields of the code generator other than its options and symbol table. Everything "
          "else in C15 (byte-identical output after rename, renaming back) is not decided.", "§4 C15/C16"),
  "C16": ("analysis-path coverage on typed HIR (completeness clause only)",
-         "Same completeness clause as C15 plus single-resolver agreement, per-segment usage spans, a per-pass reset of the usage database and a fixed, narrowest-first order among the definitions at a position; references and highlights select the same symbol definitions and answer each place once; the branch of an .if that is not taken is analysed in a scope of its own; a column, which counts characters, is never taken for a number of bytes in the code map, the analysis database and the source map; whether a usage is recorded does not depend on generator state. Which occurrence binds where on concrete programs is not decided.", "§4 C15/C16"),
+         "Same completeness clause as C15 plus single-resolver agreement, per-segment usage spans, a per-pass reset of the usage database and a fixed, narrowest-first order among the definitions at a position; references and highlights select the same symbol definitions and answer each place once; the branch of an .if that is not taken is analysed in a scope of its own; a column, which counts characters, is never taken for a number of bytes in the code map, the analysis database and the source map; whether a usage is recorded does not depend on generator state; no symbol is removed from the symbol table during code generation (its place is the key of the usage database). Which occurrence binds where on concrete programs is not decided.", "§4 C15/C16"),
  "C17": ("label propagation BYTELEN → LSP positions; dominance and shape rules on HIR",
          "No UTF-8 byte length/offset becomes an LSP character in the formatting answer; formatting only without diagnostics; the language server and the CLI share one formatter "
          "and the server uses default options; the edit loop advances its position tracker over deleted and unchanged chunks only, in merged edits too; no character-counting column of the code map reaches an edit position; the diff is taken against the stored buffer itself; the handlers answer the list that was computed, uncut. The diff-to-edit result on concrete buffers is "
